@@ -333,6 +333,9 @@ type session struct {
 	keyedOpen func(req protoreflect.Message) string
 	// names (rows with aliases, see rowNames): the names the router knows the device under
 	names []string
+	// onWritten, when set, runs once when the next write (Update RPC or model-level write) has returned, before its
+	// outcome is judged (first.go: what the bus saw during the write decides whether a new stream is owed its event)
+	onWritten func()
 }
 
 func txt(m proto.Message) string {
@@ -1066,6 +1069,10 @@ func (s *session) doPoke() {
 		}
 	}
 	panicked, pmsg := lib.Catch(func() { outs = m.Call(args) })
+	if f := s.onWritten; f != nil {
+		s.onWritten = nil
+		f()
+	}
 	if panicked {
 		s.trace = append(s.trace, stepDesc{s.step, op, "panic: " + pmsg})
 		return // a model-level panic on arbitrary input is not this property's concern
